@@ -363,7 +363,10 @@ func (r *resource) QueryEvent(cb func(QueryRequest)) {
 
 	go qe.startQueryListener()
 
-	r.s.queryTQ.Add(qe)
+	r.s.mu.Lock()
+	tq := r.s.queryTQ
+	r.s.mu.Unlock()
+	tq.Add(qe)
 }
 
 // CreateEvent sends a create event for the resource, where data is
